@@ -61,6 +61,18 @@ Proof.
         (conj reject_infinite_backoff (conj reject_nonzero_backoff_on_longest reject_unknown_word)))))))))))).
 Qed.
 
+(* file level: an accepted file contains the bytes \end\ ... *)
+Theorem C10_accept_implies_end_marker : forall st file m, parse_arpa_text st file = Ok m -> contains s_end file.
+Proof. exact accepted_text_contains_end. Qed.
+
+(* ... so every file without them, in particular every truncation firstn k file that cuts before or inside the end marker
+   (Example truncation_hypothesis_satisfiable), maps to an error, whatever else it holds *)
+Theorem C10_reject_truncated : forall st file k, ~ contains s_end (firstn k file) -> forall m, parse_arpa st (firstn k file) <> Ok m.
+Proof. exact reject_truncated. Qed.
+
+Theorem C10_reject_without_end_marker : forall st file, ~ contains s_end file -> forall m, parse_arpa st file <> Ok m.
+Proof. exact reject_without_end_marker. Qed.
+
 (* binary files: truncated header, another model type / an unknown type, another search version, order outside
    [2, KENLM_MAX_ORDER] (F: order 0 crashed before commit aad35aa), a probing multiplier that is not >= 1 (F: NaN divided by
    zero before commit 1a90c03) are rejected before any size is computed *)
